@@ -65,7 +65,7 @@ def configs(tier):
         d = dict(key=key, ep=ep, **kw)
         d.setdefault("mode", "merge")
         d["timeout_s"] = 170
-        d["max_paths"] = 64
+        d["max_paths"] = d.pop("max_paths_", 64)
         out.append(d)
 
     for init in ("user_tuple", "user_cptensor", "svd"):
@@ -106,11 +106,22 @@ def configs(tier):
     for kind in ("non_negative", "l1_reg", "simplex", "monotonicity", "hard_sparsity", "unimodality", "normalize", "soft_sparsity"):
         add("prox", kind=kind, mode="fork" if kind in ("hard_sparsity", "unimodality") else "merge")
     add("tenalg", opt="all")
-    add("rank_lists", opt="tt_tr_tucker")
+    for o_ in ("tt", "tr", "tucker"):
+        add("rank_lists", opt=o_)
     add("svd_interface", opt="mask", mode="fork")
-    add("parafac", init="svd_real", opt="mask", mode="fork")
+    add("parafac", init="svd_real", opt="mask", mode="fork", max_paths_=1500)
     add("active_set", opt="warm_backtrack")
     add("cp_regressor", opt="fit")
+    add("tucker_regressor", opt="fit")
+    for o_ in ("congruence", "corrindex_stacked", "regression") + (() if tier == "quick" else ("corrindex_max",)):
+        add("metrics", opt=o_)
+    add("preprocessing", opt="parafac2_compression", mode="fork")
+    for o_ in ("tt", "ttm", "tr"):
+        add("svd_decompositions", opt=o_)
+    add("svd_decompositions", opt="tr_als")
+    add("cmtf", opt="normalize", mode="fork")
+    add("cp_permute", opt="wrappers", mode="fork")
+    add("cp_permute", opt="list", mode="fork")
     add("cp_plsr", opt="fit")
     return out
 
@@ -151,6 +162,19 @@ class Snap:
             else:
                 ok = len(c) == len(before) and all((x is y) or _same_scalar(E, x, y) for x, y in zip(c, before))
             E.prove(f"{tag}container_unchanged/{name}", ok, detail=f"before={_short(before)} after={_short(c)}")
+
+
+def _nonzero_columns(E, mats):
+    """precondition: every column of every matrix is non-zero, stated on the (interned) column norms the code tests"""
+    from vt import sym
+
+    for M_ in mats:
+        if E.symbolic:
+            for v in np.asarray(tl.norm(sym.sarr(np.array(M_)), axis=0), dtype=object).ravel():
+                if isinstance(v, sym.SR) and v.c is None:
+                    sym.CTX.assume_nonzero(v.t)
+        else:
+            E.assume(bool((np.linalg.norm(np.asarray(M_, dtype=float), axis=0) != 0).all()))
 
 
 def _short(c):
@@ -206,8 +230,11 @@ def harness(E, cfg):
         import tensorly.decomposition._constrained_cp as _cc
         import tensorly.decomposition._parafac2 as _p2
 
-        for mod in (_cp, _tk, _cc):
-            if cfg.get("init") != "svd_real":
+        import tensorly.decomposition._tt as _ttd
+        import tensorly.decomposition._tr_svd as _trd
+
+        for mod in (_cp, _tk, _cc, _ttd, _trd):
+            if cfg.get("init") != "svd_real" and hasattr(mod, "svd_interface"):
                 backend.patch(mod, "svd_interface", stub_svd_interface)
         backend.patch(_p2, "svd_interface", stub_orthonormal_svd)
         # inner solvers are hard-wired to 100 sweeps: run the REAL in-place code for one sweep
@@ -360,16 +387,19 @@ def harness(E, cfg):
             from tensorly.decomposition import tensor_train, tensor_ring, tucker
 
             X = snap.arr("tensor", np.array(E.real("X", (2, 2, 2))))
-            r1 = snap.cont("tt_rank_list", [1, 3, 3, 1])
-            tensor_train(X, r1)
-            tensor_train(X, r1)
-            r2 = snap.cont("tr_rank_list", [2, 3, 1, 2])
-            try:
-                tensor_ring(X, r2, mode=1)
-            except ValueError:
-                pass
-            r3 = snap.cont("tucker_rank_list", [2, 1, 2])
-            tucker(X, rank=r3, n_iter_max=1, tol=0)
+            if opt in ("tt", "tt_tr_tucker"):
+                r1 = snap.cont("tt_rank_list", [1, 3, 3, 1])
+                tensor_train(X, r1)
+                tensor_train(X, r1)
+            if opt in ("tr", "tt_tr_tucker"):
+                r2 = snap.cont("tr_rank_list", [2, 3, 1, 2])
+                try:
+                    tensor_ring(X, r2, mode=1)
+                except ValueError:
+                    pass
+            if opt in ("tucker", "tt_tr_tucker"):
+                r3 = snap.cont("tucker_rank_list", [2, 1, 2])
+                tucker(X, rank=r3, n_iter_max=1, tol=0)
         elif ep == "svd_interface":
             from tensorly.tenalg import svd_interface
 
@@ -449,12 +479,115 @@ def harness(E, cfg):
             pl.fit(X, Y)
             pl.predict(X)
             pl.transform(X, Y)
+        elif ep == "tucker_regressor":
+            from tensorly.regression.tucker_regression import TuckerRegressor
+
+            X = snap.arr("X_train", np.array(E.real("X", (3, 2, 2))))
+            y = snap.arr("y_train", np.array(E.real("y", (3,))))
+            wr = snap.cont("weight_ranks", [1, 2])
+            reg = TuckerRegressor(weight_ranks=wr, n_iter_max=1, tol=0, random_state=3, verbose=0)
+            reg.fit(X, y)
+            Xn = snap.arr("X_new", np.array(E.real("Xn", (2, 2, 2))))
+            reg.predict(Xn)
+        elif ep == "metrics":
+            from tensorly.metrics import congruence_coefficient, correlation_index, RMSE, MSE
+            from tensorly.metrics.regression import R2_score, correlation
+
+            A = snap.cont("factors_1", [snap.arr(f"A{k}", np.array(E.real(f"A{k}", (2, 2)))) for k in range(2)])
+            B = snap.cont("factors_2", [snap.arr(f"B{k}", np.array(E.real(f"B{k}", (2, 2)))) for k in range(2)])
+            _nonzero_columns(E, list(A) + list(B))  # zero columns are rejected with a ValueError
+            _nonzero_columns(E, [np.concatenate(A, 0), np.concatenate(B, 0)])  # (implied; stated on the stacked norms the code tests)
+            if E.symbolic:
+                import tensorly.metrics.factors as _mf
+
+                # the assignment solver is compiled: any permutation is a legal answer for the purpose of this property
+                backend.patch(_mf, "linear_sum_assignment", lambda cost, maximize=False: (np.arange(np.shape(cost)[0]), np.arange(np.shape(cost)[0])[::-1].copy()))
+            if opt == "congruence":
+                congruence_coefficient(A, B)
+                congruence_coefficient(A[0], B[0], absolute_value=False)
+            elif opt == "corrindex_stacked":
+                correlation_index(A, B)
+            elif opt == "corrindex_max":
+                correlation_index(A, B, method="max_score")
+            else:
+                yt = snap.arr("y_true", np.array(E.real("yt", (3,))))
+                yp = snap.arr("y_pred", np.array(E.real("yp", (3,))))
+                MSE(yt, yp)
+                RMSE(yt, yp)
+                R2_score(yt, yp)
+                correlation(yt, yp)
+        elif ep == "preprocessing":
+            from tensorly.preprocessing import svd_compress_tensor_slices, svd_decompress_parafac2_tensor
+
+            sl = snap.cont("slice_list", [snap.arr(f"slice{i}", np.array(E.real(f"X{i}", (n, 2)))) for i, n in enumerate((3, 2))])
+            if E.symbolic:
+                import tensorly.preprocessing as _pp
+
+                backend.patch(_pp, "svd_interface", stub_orthonormal_svd)
+            scores, loadings = svd_compress_tensor_slices(sl, compression_threshold=0.0)
+            w = snap.arr("weights", np.array(E.real("w", (1,))))
+            fs = snap.cont("factor_list", [snap.arr(f"factor{k}", np.array(E.real(f"F{k}", (n, 1)))) for k, n in enumerate((2, 1, 2))])
+            # orthonormal projections (validated by Parafac2Tensor): concrete unit vectors, still caller-owned arrays
+            pr = snap.cont("projection_list", [snap.arr(f"projection{i}", np.eye(np.shape(sc)[0], 1, dtype=object if E.symbolic else float)) for i, sc in enumerate(scores)])
+            lo = snap.cont("loading_list", list(loadings))
+            svd_decompress_parafac2_tensor((w, fs, pr), lo)
+        elif ep == "svd_decompositions":
+            from tensorly.decomposition import tensor_train, tensor_ring, tensor_train_matrix, tensor_ring_als
+
+            if opt in ("tt", "ttm", "tr"):
+                X = snap.arr("tensor", np.array(E.real("X", (2, 2, 2, 2))))
+                if opt == "tt":
+                    tensor_train(X, 2)
+                elif opt == "ttm":
+                    tensor_train_matrix(X, 2)
+                else:
+                    tensor_ring(X, [1, 2, 2, 2, 1])
+            else:
+                X3 = snap.arr("tensor3", np.array(E.real("Y", (2, 2, 2))))
+                rk = snap.cont("tr_als_rank_list", [1, 2, 1, 1])
+                tensor_ring_als(X3, rk, n_iter_max=1, tol=0, random_state=1)
+        elif ep == "cmtf":
+            from tensorly.decomposition._cmtf_als import coupled_matrix_tensor_3d_factorization
+
+            X = snap.arr("tensor", np.array(E.real("X", (2, 2, 2))))
+            Y = snap.arr("matrix", np.array(E.real("Y", (2, 2))))
+            coupled_matrix_tensor_3d_factorization(X, Y, 1, init="svd", n_iter_max=1, tol=0, normalize_factors=True)
+        elif ep == "cp_permute":
+            from tensorly.cp_tensor import cp_permute_factors
+
+            w1 = snap.arr("ref_weights", np.array(E.real("w1", (2,))))
+            f1 = snap.cont("ref_factor_list", [snap.arr(f"ref_factor{k}", np.array(E.real(f"A{k}", (2, 2)))) for k in range(3)])
+            w2 = snap.arr("weights", np.array(E.real("w2", (2,))))
+            f2 = snap.cont("factor_list", [snap.arr(f"factor{k}", np.array(E.real(f"B{k}", (2, 2)))) for k in range(3)])
+            _nonzero_columns(E, list(f1) + list(f2))  # zero columns are rejected with a ValueError
+            if E.symbolic:
+                import tensorly.cp_tensor as _cpt
+
+                # the matching itself is the metrics configuration's subject: any permutation is a legal answer here
+                backend.patch(_cpt, "congruence_coefficient", lambda a, b, **k: (0, [1, 0]))
+            from tensorly.cp_tensor import CPTensor
+
+            ref, tp = CPTensor((w1, f1)), CPTensor((w2, f2))
+            snap.cont("ref_wrapper_factor_list", ref.factors)
+            snap.cont("wrapper_factor_list", tp.factors)
+            if opt == "list":
+                tp2 = CPTensor((np.array(w2), [np.array(f) for f in f2]))
+                lst = snap.cont("list_of_tensors_to_permute", [tp, tp2])
+                cp_permute_factors(ref, lst)
+            else:
+                cp_permute_factors(ref, tp)
         else:
             raise KeyError(ep)
     except (sym.Abort, sym.BudgetExceeded):
         raise
     except Exception as e:  # the property covers early exits via exceptions too
         raised = e
+        import os
+
+        if os.environ.get("VT_DEBUG_EXC"):
+            import traceback
+
+            traceback.print_exc()
     if raised is not None and opt != "raises":
         E.prove("entry_point_executed", False, detail=f"{type(raised).__name__}: {raised}")
     snap.check("after_exception/" if raised is not None else "")
